@@ -279,6 +279,21 @@ def agree(mobs, iobs, strict_panic=True):
     """Compare a model observation with an implementation observation.
     Returns None when they agree, else a short reason."""
     mk, ik = obs_kind(mobs), obs_kind(iobs)
+    if mk == 'errs':
+        # whole-inventory render with failing nodes: the implementation may name any of them
+        alts = [a.strip().split(' ') for a in mobs.split(' || ')[1:]]
+        if ik not in ('err', 'panic'):
+            return 'model: nodes %s fail, impl %s' % ([unhx(a[0][1:]) for a in alts], describe(iobs))
+        msg = unhx(iobs.split(' ')[1]) if len(iobs.split(' ')) > 1 else ''
+        for a in alts:
+            node = unhx(a[0][1:])
+            if a[1] == 'err' and ik == 'err' and node in msg and err_matches(a[2:], msg):
+                return None
+            if a[1] == 'panic' and ik == 'panic' and PANIC_SITES.get(a[2], '\0') in msg:
+                return None
+            if a[1] == 'fuel':
+                return 'invalid:model-out-of-fuel'
+        return 'inventory error names no failing node: impl %r, failing nodes %s' % (msg[:200], [unhx(a[0][1:]) for a in alts])
     if mk == 'fuel':
         return 'invalid:model-out-of-fuel'
     if mk in ('badcase', 'badmode', 'badline') or ik == 'badcase':
